@@ -162,7 +162,8 @@ fn plan10(seed: u64, run: u64, tier: Tier) -> Plan10 {
     // long names: more than 255 bytes of short components; non-ASCII letters at every byte offset
     let long_ascii = format!("{}x.js.map", "ab/".repeat(rng.range(86, 120)));
     let long_unicode = format!("{}maps/{}/app.js.map", "p".repeat(rng.below(9)), "\u{e9}quipe-donn\u{e9}es-r\u{e9}f\u{e9}rentiel-g\u{e9}n\u{e9}r\u{e9}s-\u{5171}\u{4eab}".repeat(rng.range(1, 3)));
-    let url_pool: [&str; 9] = ["a.js.map", "maps/a.js.map", "../maps/out.map", "./x.map", "maps/what?.js.map", "issue#4711/a.js.map", "a.js.map?v=1", &long_ascii, &long_unicode];
+    // names that merely begin like a URL scheme are file names too
+    let url_pool: [&str; 12] = ["a.js.map", "maps/a.js.map", "../maps/out.map", "./x.map", "maps/what?.js.map", "issue#4711/a.js.map", "a.js.map?v=1", &long_ascii, &long_unicode, "http-client.js.map", "https/index.js.map", "data/app.js.map"];
     let url_name: &str = url_pool[rng.below(url_pool.len())];
     // in a minority of runs the program contains literals that merely look like the comment
     let lookalike = rng.chance(1, 8);
